@@ -3,6 +3,7 @@ package c03
 import (
 	"fmt"
 	"strings"
+	"time"
 
 	"github.com/0xReLogic/Helios/verifharness/lab"
 	"pgregory.net/rapid"
@@ -20,16 +21,52 @@ var Strategies = []string{"round_robin", "least_connections", "weighted_round_ro
 
 func abortFault(f string) bool { return strings.HasPrefix(f, "client-abort") }
 
+// Kinds is the request-kind dimension: the shape of the client request a fault is played against.
+//
+//	get               plain bodiless GET
+//	post-cl           POST with a 2000-byte body framed by Content-Length
+//	post-chunked      POST with the same body in chunked transfer coding
+//	head              HEAD
+//	upgrade-websocket WebSocket opening handshake: GET, Connection: Upgrade, Upgrade: websocket, Sec-WebSocket-Key/-Version
+//	upgrade-h2c       GET, Connection: Upgrade, HTTP2-Settings, Upgrade: h2c, HTTP2-Settings
+//	expect-continue   POST with Expect: 100-continue and a body (Content-Length / chunked alternating inside a burst; the
+//	                  client alternately waits for the interim response for up to 1.5 s or sends the body straight away)
+//
+// For the upgrade kinds a well-behaved backend may answer 101 (then the client closes the tunnel) or
+// 200; both are played (they alternate inside a burst). "" means "get" (replay files written before
+// the dimension existed).
+var Kinds = []string{"get", "post-cl", "post-chunked", "head", "upgrade-websocket", "upgrade-h2c", "expect-continue"}
+
+func kindOf(k string) string {
+	if k == "" {
+		return "get"
+	}
+	return k
+}
+
+// TimeoutPairs are the (handler, backend_read) values of the generated configurations, grouped by
+// their relation; all within 1-3 s so that cases stay cheap.
+var TimeoutPairs = map[string][][2]int{
+	"handler<backend_read":  {{1, 2}, {1, 3}, {2, 3}},
+	"handler==backend_read": {{1, 1}, {2, 2}, {3, 3}},
+	"handler>backend_read":  {{2, 1}, {3, 1}, {3, 2}},
+}
+
+// Relations in a fixed order.
+var Relations = []string{"handler<backend_read", "handler==backend_read", "handler>backend_read"}
+
 // Timeouts of every generated configuration: each at its 1 s minimum (whole seconds only), except
-// write (2 s, so that read < write tells the two server deadlines apart) and idle (5 s).
+// write (2 s, so that read < write tells the two server deadlines apart), idle (5 s) and the two
+// timeouts that can end a request to a silent backend - handler and backend_read - which are part
+// of the case (Cfg.Handler / Cfg.BackendRead, 1..3 s each, all relations <, ==, >).
 const (
 	tRead        = 1
 	tWrite       = 2
 	tIdle        = 5
-	tHandler     = 2 // documented end-to-end handler timeout (README); parsed and validated by Helios
+	tHandler     = 2 // default of Cfg.Handler: end-to-end handler timeout (README); not applied to requests with an Upgrade field
 	tShutdown    = 2
 	tBackendDial = 1
-	tBackendRead = 1
+	tBackendRead = 1 // default of Cfg.BackendRead
 	tBackendIdle = 1 // idle pooled backend connections close after 1 s: the fd count can return to its baseline
 	cbTimeout    = 1
 	unhealthyFor = 1
@@ -44,12 +81,46 @@ type Cfg struct {
 	Passive     bool   `json:"passive_checks"`
 	Active      bool   `json:"active_checks"`
 	Plugins     bool   `json:"plugin_chain"` // logging + size_limit + gzip + headers
+	// server.timeouts.handler / backend_read in seconds, each 1..3; 0 = the former fixed values (handler 2, backend_read 1)
+	Handler     int `json:"handler_timeout_s,omitempty"`
+	BackendRead int `json:"backend_read_timeout_s,omitempty"`
 	// only set by the two directed sub-checks (omitted from the JSON of ordinary cases)
 	BreakerMaxRequestsUnset bool `json:"breaker_max_requests_unset,omitempty"`  // max_requests left out of the YAML (runtime default = success_threshold)
 	PassiveThreshold        int  `json:"passive_unhealthy_threshold,omitempty"` // 0 = 2
 	// FaultyEntries > 1 lists the FAULTY server under that many backend names (faulty, faulty2, ...): each entry
 	// has its own health state and unhealthy window, so there are that many more window expiries per second
 	FaultyEntries int `json:"faulty_backend_entries,omitempty"`
+}
+
+func (c Cfg) handler() int {
+	if c.Handler > 0 {
+		return c.Handler
+	}
+	return tHandler
+}
+
+func (c Cfg) backendRead() int {
+	if c.BackendRead > 0 {
+		return c.BackendRead
+	}
+	return tBackendRead
+}
+
+// relation names how the two timeouts that can end a request to a silent backend relate.
+func (c Cfg) relation() string {
+	switch h, b := c.handler(), c.backendRead(); {
+	case h < b:
+		return "handler<backend_read"
+	case h == b:
+		return "handler==backend_read"
+	}
+	return "handler>backend_read"
+}
+
+// endBound is the bound of oracle clause (i), derived from the configured timeouts of the case:
+// every client call of a fault step ends within 2*(read+write+backend_dial+backend_read)+2 s.
+func (c Cfg) endBound() time.Duration {
+	return time.Duration(2*(tRead+tWrite+tBackendDial+c.backendRead())+2) * time.Second
 }
 
 // backends is the number of configured backend entries.
@@ -60,6 +131,7 @@ func (c Cfg) backends() int { return 1 + max(1, c.FaultyEntries) }
 type Step struct {
 	Fault      string `json:"fault"`
 	Concurrent int    `json:"concurrent"`
+	Kind       string `json:"kind,omitempty"` // request kind of every request of the burst (see Kinds); "" = get
 }
 
 // Case is what is executed, recorded and replayed.
@@ -83,14 +155,14 @@ func (c Case) String() string {
 	var ss []string
 	for _, s := range c.Steps {
 		if s.Concurrent > 0 {
-			ss = append(ss, fmt.Sprintf("%s x%d concurrent", s.Fault, s.Concurrent))
+			ss = append(ss, fmt.Sprintf("%s on %s x%d concurrent", s.Fault, kindOf(s.Kind), s.Concurrent))
 		} else {
-			ss = append(ss, s.Fault+" x4 sequential")
+			ss = append(ss, fmt.Sprintf("%s on %s x4 sequential", s.Fault, kindOf(s.Kind)))
 		}
 	}
 	switch c.Kind {
 	case "breaker-trial":
-		return fmt.Sprintf("breaker-trial %+v: open the breaker with %s, wait timeout+0.2 s, one trial request carrying %s", c.Cfg, c.Opening, c.Steps[0].Fault)
+		return fmt.Sprintf("breaker-trial %+v: open the breaker with %s, wait timeout+0.2 s, one trial request (%s) carrying %s", c.Cfg, c.Opening, kindOf(c.Steps[0].Kind), c.Steps[0].Fault)
 	case "window-expiry":
 		return fmt.Sprintf("window-expiry %+v: FAULTY answers 5xx, %d keep-alive clients for %d s (%d free-running back to back, %d in synchronised volleys)", c.Cfg, c.Clients, c.Seconds, min(c.FreeRunning, c.Clients), c.Clients-min(c.FreeRunning, c.Clients))
 	}
@@ -121,11 +193,13 @@ func genCfg(rt *rapid.T) Cfg {
 	c.Passive = rapid.Bool().Draw(rt, "passive")
 	c.Active = rapid.Bool().Draw(rt, "active")
 	c.Plugins = rapid.Bool().Draw(rt, "plugins")
+	c.Handler = rapid.IntRange(1, 3).Draw(rt, "handler_timeout")
+	c.BackendRead = rapid.IntRange(1, 3).Draw(rt, "backend_read_timeout")
 	return c
 }
 
 func genStep(rt *rapid.T) Step {
-	s := Step{Fault: rapid.SampledFrom(Faults).Draw(rt, "fault")}
+	s := Step{Fault: rapid.SampledFrom(Faults).Draw(rt, "fault"), Kind: rapid.SampledFrom(Kinds).Draw(rt, "kind")}
 	if rapid.Bool().Draw(rt, "concurrent") {
 		s.Concurrent = rapid.IntRange(2, 8).Draw(rt, "n")
 	}
@@ -156,7 +230,8 @@ func genExpiry() *rapid.Generator[Case] {
 	return rapid.Custom(func(rt *rapid.T) Case {
 		c := Case{Kind: "window-expiry",
 			Cfg: Cfg{FaultyFirst: rapid.Bool().Draw(rt, "faulty_first"), Passive: true, FaultyEntries: rapid.IntRange(8, 32).Draw(rt, "faulty_entries"), PassiveThreshold: rapid.IntRange(1, 2).Draw(rt, "threshold"),
-				Active: rapid.Bool().Draw(rt, "active"), Plugins: rapid.Bool().Draw(rt, "plugins")},
+				Active: rapid.Bool().Draw(rt, "active"), Plugins: rapid.Bool().Draw(rt, "plugins"),
+				Handler: rapid.IntRange(1, 3).Draw(rt, "handler_timeout"), BackendRead: rapid.IntRange(1, 3).Draw(rt, "backend_read_timeout")},
 			Clients: rapid.SampledFrom([]int{8, 16, 24, 32, 48, 64}).Draw(rt, "clients"),
 			Seconds: rapid.IntRange(5, lab.Scale(5, 8)).Draw(rt, "seconds")}
 		// mostly synchronised volleys; sometimes half or all of the clients free-running
@@ -175,7 +250,7 @@ func (c Cfg) YAML(proxyPort, adminPort int, goodURL, faultyURL string) string {
 	var b strings.Builder
 	p := func(f string, a ...any) { fmt.Fprintf(&b, f, a...) }
 	p("server:\n  port: %d\n  timeouts:\n    read: %d\n    write: %d\n    idle: %d\n    handler: %d\n    shutdown: %d\n    backend_dial: %d\n    backend_read: %d\n    backend_idle: %d\n",
-		proxyPort, tRead, tWrite, tIdle, tHandler, tShutdown, tBackendDial, tBackendRead, tBackendIdle)
+		proxyPort, tRead, tWrite, tIdle, c.handler(), tShutdown, tBackendDial, c.backendRead(), tBackendIdle)
 	p("backends:\n")
 	good := fmt.Sprintf("  - name: \"good\"\n    address: %q\n    weight: 1\n", goodURL)
 	faulty := fmt.Sprintf("  - name: \"faulty\"\n    address: %q\n    weight: 1\n", faultyURL)
